@@ -5,12 +5,29 @@ V = os.path.dirname(os.path.dirname(os.path.abspath(__file__)))
 props = [json.loads(l) for l in open(os.path.join(V, "properties.jsonl"))]
 ids = [p["id"] for p in props]
 
+TRUST = "Trusted: Coq 8.16.1 kernel (vm_compute; no native_compute), tools/extract_consts.py, extraction (ExtrOcamlBasic, ExtrOCamlFloats, ExtrOCamlInt63) + OCaml driver, Rust harness + cfg(uflow_verif) hooks. The Gallina model is hand-written; its agreement with the code is tested on every run (differential streams), not proved."
+
 CLAIMED = {
  "C16": dict(
    text="Coq theorems over a byte-for-byte Gallina transcription of the frame codec: round trip for every representable frame (C16_roundtrip), totality of the reader on every byte string (C16_read_total); the model is tied to the source by regenerated constants/CRC table and by a differential codec stream (write/read/flip/mutate) against the real Frame::read/write.",
-   note="Trusted: Coq kernel, tools/extract_consts.py, extraction (ExtrOcamlBasic) + OCaml driver, Rust harness + cfg hooks. The codec model is hand-written; its agreement with the code is tested, not proved.",
+   note=TRUST,
    technique="Coq proof (induction over datagram/ack lists, lia over div/mod) + model/implementation differential run",
    design="DESIGN.md §5 C16"),
+ "C20": dict(
+   text="Coq invariant proved by induction over ALL sequences of PacketSender operations (send, emit with any flush id, acknowledge with any id, fragment acks): total_size = queued bytes + window bytes, zero when both are empty, the release loop never leaves the window. HalfConnection::send_buffer_size() is that counter. Model tied to the code by the pair/tx/hostile streams (counter compared after every operation, debug+release).",
+   note=TRUST,
+   technique="Coq proof (invariant by induction over operation lists) + differential run",
+   design="DESIGN.md §5 C20"),
+ "C06": dict(
+   text="Coq invariants by induction over ALL operation sequences: receiver allocation counter = sum of per-slot allocations <= limit rounded to a fragment for every (hostile) datagram / receive / resync stream; sender: fragment-rounded outstanding bytes <= peer limit and <= window-size packets outstanding for every send/ack history. Tied to the code by hostile/pair/tx streams comparing both counters, window spans and the ack-queue length after every operation.",
+   note=TRUST + " Real heap bytes (allocator overhead) are not modelled; the bound is on the library's own accounting, which the model proves equal to the sum of buffer capacities.",
+   technique="Coq proof (invariant by induction over operation lists) + differential run",
+   design="DESIGN.md §5 C06"),
+ "C04": dict(
+   text="Coq theorems: the fragments of any payload partition it with all but the last exactly 1448 bytes; a FragmentBuffer fed those fragments in ANY order with ANY repetition returns the payload; a later write to a filled index changes nothing; a full fragment fits one 1472-byte frame. Tied by pair/ideal/hostile streams with lengths around every multiple of 1448; frame sizes of the implementation checked by oracle.",
+   note=TRUST + " The <=1472 bound for multi-datagram frames is checked on the implementation's frames, the emitter-level proof is not part of this property file.",
+   technique="Coq proof (list induction, first-write-wins invariant) + differential run",
+   design="DESIGN.md §5 C04"),
 }
 
 NOT_YET = "not yet covered by the Coq development in this revision (model/theorem under construction); see DESIGN.md"
